@@ -222,3 +222,13 @@ pub fn run_tool(bin: &str, args: &[String], stdin: &[u8]) -> Result<RunOut, Stri
         stderr: String::from_utf8_lossy(&out.stderr).to_string(),
     })
 }
+
+/// liblinear draws from C `rand()`, a process-wide generator. Training is therefore serialised
+/// under a global lock and the generator is re-seeded before every call, which makes every
+/// training - and with it every replay of a training case - a pure function of its inputs.
+pub fn train_deterministic<R>(f: impl FnOnce() -> R) -> R {
+    static LOCK: std::sync::Mutex<()> = std::sync::Mutex::new(());
+    let _g = LOCK.lock().unwrap_or_else(|e| e.into_inner());
+    unsafe { libc::srand(1) };
+    f()
+}
